@@ -6,16 +6,17 @@
 (* the contract of IoFaults is satisfiable and exactly characterises the    *)
 (* std write_all loop; the deliberately wrong variants (Buggy) violate it.  *)
 (***************************************************************************)
-EXTENDS IoFaults, FiniteSets
+EXTENDS IoFaults, FiniteSets, Json
 CONSTANTS Pieces,    \* set of piece-length sequences the writer emits, e.g. {<<2,1>>, <<3>>}
           Buggy      \* "none" | "write-once" | "ignore-flush" | "swallow"
-VARIABLES plan, pc, off, failAt, calls
-mvars == <<vars, plan, pc, off, failAt, calls>>
+VARIABLES plan, pc, off, failAt, calls,
+          script    \* history: the sink's answers in call order (write: bytes accepted, 0, -1; flush: 100 ok / -100 failed)
+mvars == <<vars, plan, pc, off, failAt, calls, script>>
 
 RECURSIVE Sum(_, _)
 Sum(q, i) == IF i = 0 THEN 0 ELSE Sum(q, i - 1) + q[i]
 
-Init == /\ plan \in Pieces /\ pc = 1 /\ off = 0 /\ calls = 0
+Init == /\ plan \in Pieces /\ pc = 1 /\ off = 0 /\ calls = 0 /\ script = <<>>
         /\ failAt \in 0..8          \* 0 = never
         /\ E = Sum(plan, Len(plan)) /\ mustFlush = TRUE /\ pos = 0 /\ flushedAt = -1 /\ faults = 0 /\ bad = FALSE /\ after = 0 /\ ret = "none"
 
@@ -26,6 +27,7 @@ DoWrite ==
   /\ LET len == plan[pc] - off IN
      \E r \in (IF calls + 1 = failAt THEN {-1, 0} ELSE 1..len) :
         /\ SinkWrite(len, r, TRUE)
+        /\ script' = Append(script, r)
         /\ IF r <= 0
            THEN IF Buggy = "swallow" THEN pc' = pc + 1 /\ off' = 0 ELSE pc' = Len(plan) + 2 /\ off' = 0     \* propagate: jump to Return(err)
            ELSE IF off + r = plan[pc] \/ Buggy = "write-once" THEN pc' = pc + 1 /\ off' = 0 ELSE pc' = pc /\ off' = off + r
@@ -35,13 +37,16 @@ DoFlush ==
   /\ calls' = calls + 1
   /\ LET ok == calls + 1 # failAt IN
      /\ SinkFlush(ok)
+     /\ script' = Append(script, IF ok THEN 100 ELSE -100)
      /\ pc' = IF ok \/ Buggy = "ignore-flush" THEN Len(plan) + 3 ELSE Len(plan) + 2
   /\ UNCHANGED <<plan, off, failAt>>
 DoReturn ==
   /\ ret = "none" /\ pc >= Len(plan) + 2
   /\ Return(IF pc = Len(plan) + 2 THEN "err" ELSE "ok")
-  /\ UNCHANGED <<plan, pc, off, failAt, calls>>
+  /\ UNCHANGED <<plan, pc, off, failAt, calls, script>>
 Next == DoWrite \/ DoFlush \/ DoReturn \/ (ret # "none" /\ UNCHANGED mvars)
 Spec == Init /\ [][Next]_mvars
-PiecesQuick == {<<1>>, <<3>>, <<2, 1>>, <<1, 2, 1>>, <<>>}
+\* every finished behaviour of the reference pipeline = one fault script for the real entry points
+Emit == ret # "none" => PrintT(<<"IO", ToJson([script |-> script, plan |-> plan, ret |-> ret])>>)
+PiecesQuick == {<<1>>, <<3>>, <<2, 1>>, <<1, 2, 1>>, <<>>, <<4>>, <<3, 2>>, <<2, 2, 1>>}
 ====
